@@ -166,7 +166,7 @@ template<class T, multi::dimensionality_type D> bool gen_op(VS<T, D> const& s, R
 		switch(c) {
 			case 0: if constexpr(D >= 2) { if(n > 0) { op.name = "index"; op.a = {rng.range(f, l - 1)}; return true; } } break;
 			case 1: { long x = rng.range(f, l); long y = rng.range(x, l); op.name = "sliced"; op.a = {x, y}; return true; }
-			case 2: { std::vector<long> cand; for(long k = 1; k <= (n == 0 ? 3 : n); ++k) { if(n == 0 || n % k == 0) cand.push_back(k); }
+			case 2: { std::vector<long> cand; for(long k = 1; k <= (n == 0 ? 3 : n); ++k) { if((n == 0 || n % k == 0) && f % k == 0) cand.push_back(k); }
 				op.name = "strided"; op.a = {cand[static_cast<std::size_t>(rng.range(0, static_cast<long>(cand.size()) - 1))]}; return true; }
 			case 3: op.name = "dropped"; op.a = {rng.range(0, n)}; return true;
 			case 4: op.name = "taked"; op.a = {rng.range(0, n)}; return true;
@@ -174,7 +174,7 @@ template<class T, multi::dimensionality_type D> bool gen_op(VS<T, D> const& s, R
 			case 6: op.name = "unrotated"; return true;
 			case 7: if constexpr(D >= 2) { op.name = "transposed"; return true; } break;
 			case 8: op.name = "reversed"; return true;
-			case 9: if constexpr(D >= 2) { op.name = "diagonal"; return true; } break;
+			case 9: if constexpr(D >= 2) { if(ex[0].first == 0 && ex[1].first == 0) { op.name = "diagonal"; return true; } } break;
 			case 10: if constexpr(D < MAXD) { std::vector<long> cand; for(long k = 1; k <= (n == 0 ? 3 : n); ++k) { if(n == 0 || n % k == 0) cand.push_back(k); }
 				op.name = "partitioned"; op.a = {cand[static_cast<std::size_t>(rng.range(0, static_cast<long>(cand.size()) - 1))]}; return true; } break;
 			default: break;
@@ -399,12 +399,14 @@ template<class T> void gen_program(Rng& rng, long p, std::uint64_t seed) {
 	char const* names[3] = {"s4", "cplx", "int"};
 	fill_buffer(Kind<T>::id);
 	int D = 1 + rng.pick({25, 40, 25, 10});
+	bool rebased = rng.coin(50);  // index bases other than 0 (casts scale the offset too)
 	std::vector<Ex> ex; long ne = 1;
 	for(int k = 0; k < D; ++k) {
 		long sz = (long[]){0, 1, 2, 3, 4, 5, 6}[rng.pick({8, 14, 22, 20, 18, 10, 8})];
 		if(ne * sz > 200) sz = 2;
 		ne *= sz;
-		ex.push_back(Ex{0, sz});
+		long f = rebased ? rng.range(-3, 3) : 0;
+		ex.push_back(Ex{f, f + sz});
 	}
 	long base = 16 + rng.range(0, 9);
 	std::fprintf(fprog, "prog %ld %llu\n", p, static_cast<unsigned long long>(seed)); std::fprintf(fans, "prog %ld %llu\n", p, static_cast<unsigned long long>(seed));
